@@ -595,6 +595,15 @@ def counts_shapes(kpath, kitems, jpath, jitems, out):
         if stm != exp or it.body[2] != pipeline(spec, meth, a, b):
             raise Untranslatable(kpath, it.span[0], f"{name}: body no longer has the pinned shape "
                                  "(spectrum of the setup / of the exchanged setup; argument order; correction factor of the unexchanged setup)")
+    # Steps2D::division_widths: (width of axis 0, width of axis 1) — the two factors of the cell area dw2 = dws * dwi
+    upath = os.path.join(os.path.dirname(os.path.dirname(kpath)), "utils.rs")
+    uitems = parse_file(upath)
+    it = find_fn(uitems, "division_widths", "Steps2D")
+    out.span("utils::Steps2D::division_widths", it)
+    axis = lambda k: ("mcall", ("call", ("path", ["Steps", "from"]), [("field", P_("self"), k)]), "division_width", [])
+    if it.body != ("block", [], ("tuple", [axis("0"), axis("1")])):
+        raise Untranslatable(upath, it.span[0], "Steps2D::division_widths is no longer (Steps::from(self.0).division_width(), "
+                             "Steps::from(self.1).division_width())")
     it = find_fn(jitems, "jsi_singles_idler_range", "JointSpectrum")
     out.span("joint_spectrum::JointSpectrum::jsi_singles_idler_range", it)
     exp = [("let", ("pbind", "swapped", False), None,
@@ -610,6 +619,10 @@ def counts_shapes(kpath, kitems, jpath, jitems, out):
    spdc.clone().with_swapped_signal_idler() at (a, b); p0 = scalars of the setup itself (only frequency-independent fields are
    read by the correction); pts = the grid `ranges.as_steps()`; dw2 = dws * dwi; jsis = JointSpectrum::jsi_singles as a function of
    the scalars (src/phasematch/singles.rs is not modelled here).  The parallel `sum` is rendered as a left-to-right real sum. *)
+(* `let (dws, dwi) = ranges.steps().division_widths(); let dw2 = dws * dwi`: Steps2D::division_widths is pinned to
+   (division width of axis 0, division width of axis 1); wx, wy are those two widths (Gen/Grid.v: steps_division_width) *)
+Definition pm_cell_area (wx wy : R) : R := wx * wy.
+
 Definition pm_grid_sum (f : R -> R -> R) (pts : list (R * R)) : R :=
   fold_right Rplus 0 (map (fun x => f (fst x) (snd x)) pts).
 
